@@ -2,8 +2,11 @@ package api
 
 import (
 	"context"
+	"errors"
 	"fmt"
 	"log/slog"
+	"net"
+	"syscall"
 	"time"
 
 	"github.com/valyala/fasthttp"
@@ -70,11 +73,32 @@ func (s *Server) Start(addr string) {
 
 	go func() {
 		slog.Info("starting server", "address", addr)
-		if err := s.srv.ListenAndServe(addr); err != nil {
+		ln, err := net.Listen("tcp4", addr)
+		if err == nil {
+			err = s.srv.Serve(patientListener{ln})
+		}
+		if err != nil {
 			s.errCh <- fmt.Errorf("server error: %w", err)
 		}
 		<-ctx.Done()
 	}()
+}
+
+// patientListener keeps accepting when the process has run out of descriptors:
+// fasthttp ends its accept loop - and with it the service - on any accept
+// error that is not a timeout, so a burst of connections beyond the
+// descriptor limit would stop the server for good.
+type patientListener struct{ net.Listener }
+
+func (l patientListener) Accept() (net.Conn, error) {
+	for {
+		c, err := l.Listener.Accept()
+		if errors.Is(err, syscall.EMFILE) || errors.Is(err, syscall.ENFILE) {
+			time.Sleep(50 * time.Millisecond)
+			continue
+		}
+		return c, err
+	}
 }
 
 func (s *Server) Stop() {
